@@ -1,4 +1,6 @@
-use super::swift_utils::{parse_amount, parse_currency};
+use super::swift_utils::{
+    format_swift_amount_for_currency, parse_amount_with_currency, parse_currency,
+};
 use crate::errors::ParseError;
 use crate::traits::SwiftField;
 use serde::{Deserialize, Serialize};
@@ -73,7 +75,7 @@ impl SwiftField for Field34F {
             });
         }
 
-        let amount = parse_amount(amount_str)?;
+        let amount = parse_amount_with_currency(amount_str, &currency)?;
 
         // Amount must be positive
         if amount <= 0.0 {
@@ -95,7 +97,7 @@ impl SwiftField for Field34F {
             ":34F:{}{}{}",
             self.currency,
             indicator_str,
-            super::swift_utils::format_swift_amount(self.amount, 2)
+            format_swift_amount_for_currency(self.amount, &self.currency)
         )
     }
 }
